@@ -310,6 +310,10 @@ def entries(m):
         for r in lm.Refinement:
             E[f'lmethod.knee[{f},{r}]'] = lambda v, f=f, r=r: lm.knee(v.P, f, r, 5)
     E['lmethod.multi_knee'] = lambda v: lm.multi_knee(v.P, v.t, 4)
+    # the Z-method's early exits (fewer than 4 points; a curve that never leaves 1.0)
+    E['zmethod.knees[3 points]'] = lambda v: zm.knees(v.Z[:3])
+    E['zmethod.getPoints[3 points]'] = lambda v: zm.getPoints(v.Z[:3])
+    E['zmethod.knees[all ones]'] = lambda v: zm.knees(np.column_stack((v.Z[:, 0], np.ones(len(v.Z)))))
     E['kneedle.knee'] = lambda v: kn.knee(v.P)
     E['kneedle.knee[t=0]'] = lambda v: kn.knee(v.P, 0)
     for p in kn.PeakDetection:
@@ -451,7 +455,9 @@ class RaiseMonitor:
             kind = 'UnboundLocalError'
         elif isinstance(exc, NameError):
             kind = 'NameError'
-        elif isinstance(exc, AttributeError) and msg.startswith('module '):
+        elif isinstance(exc, AttributeError):
+            # a module attribute that does not exist, or a value whose type lacks the attribute / method the code uses on
+            # it (e.g. a plain list returned by one branch where every other branch returns an ndarray)
             kind = 'AttributeError'
         elif isinstance(exc, TypeError) and any(s in msg for s in ('positional argument', 'unexpected keyword argument',
                                                                     'required keyword', 'multiple values for argument')):
